@@ -4,7 +4,6 @@ import (
 	"go/types"
 	"strings"
 
-	"golang.org/x/tools/go/ssa"
 )
 
 // ---- program-level helpers --------------------------------------------------
@@ -193,6 +192,13 @@ func (p *Prog) arrSortByName(name string) string {
 		return "(Array Int " + name[4:] + ")"
 	case name == "LEN":
 		return "Int"
+	case strings.HasPrefix(name, "MAPD_"):
+		return "(Array " + name[5:] + " Bool)"
+	case strings.HasPrefix(name, "MAPV_"):
+		f := strings.Split(name[5:], "_")
+		return "(Array " + f[0] + " " + f[1] + ")"
+	case strings.HasPrefix(name, "GF_"):
+		return "Int"
 	case name == "BOX_Int", name == "CELL_Int":
 		return "Int"
 	case name == "BOX_Bool", name == "CELL_Bool":
@@ -257,78 +263,6 @@ func (p *Prog) fieldSorts() map[string]string {
 	return m
 }
 
-// ---- concurrency-related instructions (ghost logs are added in channels.go) --
-
-func (e *Exec) callOpaque(fr *Frame, st *State, in ssa.CallInstruction, c *ssa.CallCommon, fv Val, rt types.Type) Val {
-	e.note("opaque-call: %s calls a function value (result unconstrained; heap havocked)", dispName(fr.fn))
-	e.havocAll(st)
-	r := e.freshVal("fres", rt, kindOf(rt))
-	e.typeFacts(r, rt, st)
-	return r
-}
-
-func (e *Exec) execGo(fr *Frame, st *State, x *ssa.Go) {
-	e.note("%s: go statement (spawned function verified separately if under contract)", dispName(fr.fn))
-}
-
-func (e *Exec) execSelect(fr *Frame, st *State, x *ssa.Select) {
-	// index: which arm fired (-1 = default when non-blocking)
-	idx := e.S.Fresh("select", "Int")
-	lo := "0"
-	if !x.Blocking {
-		lo = "(- 1)"
-	}
-	e.S.Assert(sAnd(sx("<=", lo, idx), sx("<", idx, sInt(int64(len(x.States))))))
-	tp := x.Type().(*types.Tuple)
-	res := Val{K: KTuple, T: x.Type(), F: []Val{vInt(idx), vBool(e.S.Fresh("recvok", "Bool"))}}
-	for i := 2; i < tp.Len(); i++ {
-		v := e.freshVal("recv", tp.At(i).Type(), kindOf(tp.At(i).Type()))
-		e.typeFacts(v, tp.At(i).Type(), st)
-		res.F = append(res.F, v)
-	}
-	fr.vals[x] = res
-	e.selectHook(fr, st, x, res)
-}
-
-func (e *Exec) execSend(fr *Frame, st *State, x *ssa.Send) {
-	e.sendHook(fr, st, x)
-}
-
-func (e *Exec) execRecv(fr *Frame, st *State, x *ssa.UnOp) {
-	var v Val
-	if x.CommaOk {
-		tp := x.Type().(*types.Tuple)
-		v = Val{K: KTuple, T: x.Type(), F: []Val{e.freshVal("recv", tp.At(0).Type(), kindOf(tp.At(0).Type())), vBool(e.S.Fresh("recvok", "Bool"))}}
-	} else {
-		v = e.freshVal("recv", x.Type(), kindOf(x.Type()))
-		e.typeFacts(v, x.Type(), st)
-	}
-	fr.vals[x] = v
-}
-
-func (e *Exec) execClose(fr *Frame, st *State, in ssa.CallInstruction, ch ssa.Value) {}
-
-func (e *Exec) selectHook(fr *Frame, st *State, x *ssa.Select, res Val) {}
-func (e *Exec) sendHook(fr *Frame, st *State, x *ssa.Send)               {}
-func (e *Exec) checkFrozen(fr *Frame, st *State, in ssa.CallInstruction, x Val) {
-}
-
-func (e *Exec) disciplineAccess(fr *Frame, st *State, in ssa.Instruction, a *Addr, write bool) {}
-
-func (e *Exec) execStdlibSync(fr *Frame, st *State, in ssa.CallInstruction, c *ssa.CallCommon, callee *ssa.Function, name string, rt types.Type) (Val, bool) {
-	return Val{}, false
-}
-
-// ---- maps (element kinds Int/Ref keyed by Int or String) ---------------------
-
-func (e *Exec) initMap(st *State, r string, t types.Type)                         {}
-func (e *Exec) mapLen(st *State, r string, t *types.Map) string                   { return e.S.Fresh("maplen", "Int") }
-func (e *Exec) execMapDelete(fr *Frame, st *State, m, k ssa.Value)                {}
-func (e *Exec) execMapUpdate(fr *Frame, st *State, x *ssa.MapUpdate)              { e.unsupported("%s: map update", e.name) }
-func (e *Exec) execMapLookup(fr *Frame, st *State, x *ssa.Lookup) {
-	e.unsupported("%s: map lookup", e.name)
-	fr.vals[x] = e.freshVal("mlook", x.Type(), kindOf(x.Type()))
-}
 
 // ownMode: declared ownership of the field stored in array `name`
 // ("owned": the referent is reachable only through this field; "inherits":
